@@ -519,6 +519,10 @@ class Analyzer:
                         out = alts   # type: ignore[assignment]
                 return out
             return []
+        if isinstance(v, ast.Name):
+            o = fc.owner(v.id)
+            if o is not None and (o.anns.get(v.id) is not None or o.params.get(v.id) is not None):
+                return []       # declared with a type that is not a repository class (T.TextIO, Path, ...): an external callee
         cands = [x for x in self.res.methods_by_name(f.attr) if not is_abstract_stub(x[2])]
         if 0 < len(cands) <= 3:
             return cands  # type: ignore[return-value]
